@@ -67,6 +67,7 @@ def matrix_svd(A, e=1.E-10, r=1.E+12):
 
     """
     m, n = A.shape
+    A = np.asarray(A, dtype=float)
     C = A @ A.T if m <= n else A.T @ A
 
     w, U = np.linalg.eigh(C)
